@@ -41,6 +41,59 @@ theorem C12_to_regex_full {σ : Type} [DecidableEq σ] (natName : Nat → σ)
             ∀ w, w ∈ L ↔ n.accepts w = true) :=
   C12_to_regex_full_partial AV.Rx.GnfaGlue.compile C12_parser_full_holds natName hinj
 
+/-! ## The explicit-alphabet form: `NFA.from_regex(s, input_symbols=Σ_source)` -/
+
+/-- **C12_to_regex_explicit_alphabet** — what users (and the oracle of `harness/ops/C12.py`)
+actually call: for every valid DFA / NFA with a non-empty language over literal symbols and every
+rip order, the string `to_regex` returns is compiled by `NFA.from_regex(s, input_symbols=Σ)` —
+`Σ` the alphabet of the source — to a valid NFA whose acceptance verdict equals the source's on
+every word.  (Needs: the literals of the string are source symbols — `C12_dfa_alphabet` — and
+`Σ` has no reserved character, which is `hlit`; then `C10_compile`.) -/
+theorem C12_to_regex_explicit_alphabet {σ : Type} [DecidableEq σ] (natName : Nat → σ)
+    (hinj : Function.Injective natName) :
+    (∀ (d : DFA σ Char), d.validate = .ok () → (∀ kv ∈ d.trans, (akeys kv.2).Nodup) →
+      (∀ a ∈ d.syms, IsLit a) → (∃ w, d.accepts w = true) →
+      ∃ g, fromDFA simpleRxValid natName d = .ok g ∧
+        ∀ (ord : Nat → List σ → List σ), (∀ k l x, x ∈ ord k l ↔ x ∈ l) →
+          ∃ s N, toRegex g ord = .ok (some s) ∧ AV.Rx.fromRegex s (some d.syms) = .ok N ∧
+            N.validate = .ok () ∧ ∀ w, N.accepts w = d.accepts w) ∧
+    (∀ (n : NFA σ Char), n.validate = .ok () → (∀ kv ∈ n.trans, (akeys kv.2).Nodup) →
+      (∀ kv ∈ n.trans, ∀ e ∈ kv.2, e.2.Nodup) →
+      (∀ a ∈ n.syms, IsLit a) → (∃ w, n.accepts w = true) →
+      ∃ g, fromNFA simpleRxValid natName n = .ok g ∧
+        ∀ (ord : Nat → List σ → List σ), (∀ k l x, x ∈ ord k l ↔ x ∈ l) →
+          ∃ s N, toRegex g ord = .ok (some s) ∧ AV.Rx.fromRegex s (some n.syms) = .ok N ∧
+            N.validate = .ok () ∧ ∀ w, N.accepts w = n.accepts w) := by
+  have beq : ∀ {a b : Bool}, (a = true ↔ b = true) → a = b := by
+    intro a b h; cases a <;> cases b <;> simp_all
+  constructor
+  · intro d hv hkeys hlit hne
+    obtain ⟨g, hg, hall⟩ := C12_dfa_alphabet natName hinj d hv hkeys hlit hne
+    refine ⟨g, hg, fun ord hord => ?_⟩
+    obtain ⟨s, hs, _, hch, hm⟩ := hall ord hord
+    rcases hm with ⟨rfl, h1⟩ | ⟨e, hr, hd⟩
+    · obtain ⟨N, hN, hNv, hacc⟩ := AV.Rx.GnfaGlue.fromRegex_nil_explicit d.syms
+        (fun c hc => AV.Rx.GnfaGlue.isReserved_of_isLit (hlit c hc))
+      exact ⟨[], N, hs, hN, hNv, fun w => beq (by rw [hacc, h1])⟩
+    · obtain ⟨N, hN, hNv, hacc⟩ := AV.Rx.GnfaGlue.compile_explicit hr d.syms hlit hch
+      exact ⟨s, N, hs, hN, hNv, fun w => beq (by rw [hacc, hd])⟩
+  · intro n hv hkeys htgts hlit hne
+    obtain ⟨g, hg, hall⟩ := C12_nfa_alphabet natName hinj n hv hkeys htgts hlit hne
+    refine ⟨g, hg, fun ord hord => ?_⟩
+    obtain ⟨s, hs, _, hch, hm⟩ := hall ord hord
+    rcases hm with ⟨rfl, h1⟩ | ⟨e, hr, hd⟩
+    · obtain ⟨N, hN, hNv, hacc⟩ := AV.Rx.GnfaGlue.fromRegex_nil_explicit n.syms
+        (fun c hc => AV.Rx.GnfaGlue.isReserved_of_isLit (hlit c hc))
+      exact ⟨[], N, hs, hN, hNv, fun w => beq (by rw [hacc, h1])⟩
+    · obtain ⟨N, hN, hNv, hacc⟩ := AV.Rx.GnfaGlue.compile_explicit hr n.syms hlit hch
+      exact ⟨s, N, hs, hN, hNv, fun w => beq (by rw [hacc, hd])⟩
+
+/-- Non-vacuity: the model compiles the `(ab)*` of `exDFA` with the source alphabet. -/
+example : (AV.Rx.fromRegex ['(', 'a', 'b', ')', '*'] (some exDFA.syms)).toOption.map
+    (fun N => (N.accepts [], N.accepts ['a', 'b'], N.accepts ['a'], N.accepts ['a', 'b', 'a', 'b'])) =
+    some (exDFA.accepts [], exDFA.accepts ['a', 'b'], exDFA.accepts ['a'],
+      exDFA.accepts ['a', 'b', 'a', 'b']) := by decide
+
 /-! ## The literal-alphabet hypothesis is necessary (open finding
 `C12:alphabet-has-reserved-regex-character`)
 
